@@ -451,7 +451,8 @@ func vtC20SectionText(sec vtC20Section, c *vtC20Cur) (string, bool) {
 	n := int(c.next())
 	var es []string
 	for i := 0; i < n; i++ {
-		em := []string{fmt.Sprintf(`"name":"n%d"`, i)}
+		// profile names are unique but NOT in ConfigMap order (precedence is the position, not the name)
+		em := []string{fmt.Sprintf(`"name":"n%d"`, (int64(i)*3+style)%7)}
 		selTxt, selNil := vtC20Selector(c)
 		if !selNil {
 			em = append(em, `"nodeSelector":`+selTxt)
